@@ -178,3 +178,26 @@ def run(ctx):
             m.rel,
             r.lineno,
         )
+
+    # ---- C35.6 the nested section walk descends from where it is ---------------------------------------
+    r6 = ctx.rule("C35.6", "_parse_sections descends level by level (the pointer is advanced from itself)", floor=1)
+    ps = m.func("Config._parse_sections")
+    n6 = 0
+    for lp in ast.walk(ps):
+        if isinstance(lp, ast.For) and "parts" in src(lp.iter):
+            ptrs = {src(a.targets[0]) for a in ast.walk(lp) if isinstance(a, ast.Assign) and isinstance(a.targets[0], ast.Name)}
+            for a in ast.walk(lp):
+                if isinstance(a, ast.Assign) and isinstance(a.targets[0], ast.Name):
+                    n6 += 1
+                    var = a.targets[0].id
+                    reads_self = any(isinstance(x, ast.Name) and x.id == var for x in ast.walk(a.value))
+                    r6.check(
+                        reads_self,
+                        f"{m.rel}:Config._parse_sections:descend:{var}",
+                        f"`{src(a)}` inside the per-level loop does not start from `{var}`: every level is looked up in the same dict, so for a section `a.b.c` the intermediate levels land next to each other "
+                        "(nesting {a: {}, b: {c: ..}}), get_config_dict() emits `b.c` instead of `a.b.c`, and `x.east.batch` / `x.west.batch` collide",
+                        m.rel,
+                        a.lineno,
+                    )
+    if n6 == 0:
+        raise AnalysisError("_parse_sections: per-level descent loop not found", "Config._parse_sections")
